@@ -271,6 +271,7 @@ package client
 //@   ensures [C25] keeps_handlers: handlersWF(c.messageHandlers)
 //@   ensures [C25] keeps_entries: clEntries(c)
 //@   ensures [C25] keeps_typed: clTyped(c)
+//@   ensures [C25] keeps_api: seqInv(c.msgID) && c.group != nil && c.groupCtx != nil
 
 //@ func (*Client).Sleep
 //@   nopanic [C25]
@@ -376,3 +377,19 @@ package client
 //@   tags [C23]
 //@   requires [C25] inv: apiInv(c)
 //@   assigns *
+
+// ---- keep-alive (C33, safety core; the timing half - a PINGREQ at least once per period - is not decided) ----
+// One iteration of the loop is a step: it blocks in the select, then handles a tick, a state notification or the
+// end of the client. A tick may be delivered whether the ticker was stopped or not (the model does not track
+// Stop/Reset; a tick can be waiting in the channel when the ticker is stopped), so the PINGREQ on a tick is
+// justified by the client's state alone: 1 = util.StateActive.
+//@ func (*Client).keepaliveLoop
+//@   nopanic [C25]
+//@   tags [C23]
+//@   requires [C25] inv: apiInv(c)
+//@   rely [C25] inv: apiInv(c)
+//@   assigns *
+//@   loop 0 invariant [C25] inv: apiInv(c) && ticker != nil
+//@   at Ping.0 before assert [C33] keep_alive_only_while_active: deref(c.state) == 1
+// a ping abandoned because the client fell asleep or disconnected meanwhile does not end the loop (and with it the client)
+//@   ensures [C33] an_abandoned_ping_does_not_end_the_client: result != errPingAbandoned
